@@ -113,6 +113,7 @@ def gen_cases(seed, tier, purposes):
                     if max(ss + [0]) > H: continue
                 st = spec_strides(kind, sp, pat, es, ss, None)
                 if 1 + sum((max(e, 1) - 1) * s for e, s in zip(es, st)) > H: continue     # admissible mappings only
+                if max(st + [0]) > H or (kind in ('lpad', 'rpad') and len(es) >= 2 and C.prod([max(x, 1) for x in ((st[1:2] + es[1:]) if kind == 'lpad' else (es[:-1] + st[-2:-1]))]) > H): continue
                 pv = None
                 seq = ['cmp:0:0', 'ob:0', 'cv:0:0', 'o2:0']
                 cases.append(VCase(inst, es, ss, pv, seq, 'C13'))
